@@ -6,7 +6,8 @@
     FAILURE, Disconnect(side) and TransportLoss(side) enabled at every message boundary, before and
     after the procedure ended, re-establishment of a closed link (handle re-used) with a procedure on
     the new incarnation; invariants at Quiesce, incl. LiveCompletes.
-(B) a catalogue of awaited procedures on real Devices (lib.c16_rig), succeeding and failing ones: each
+(B) a catalogue of awaited procedures on real Devices (lib.c16_rig), succeeding and failing ones, incl. tasks the stack
+    starts for the connection (delegate prompts) and drains of data queued with nothing in flight: each
     is run uncut to count its N message boundaries, then cut at boundary k by {local disconnect, remote
     disconnect, transport loss via Host.on_transport_lost(), transport loss signalled by a real
     StreamPacketSource the Host is attached to}, run 120 virtual seconds further; after a disconnection
@@ -45,6 +46,8 @@ BUGS = [
     ("central_keeps_regs", QUIESCE_INVS, "RegClean", _BUG_BASE),
     ("loss_not_forwarded", QUIESCE_INVS, "LayersAgree", _BUG_BASE),
     ("loss_not_forwarded", ["WaitersEnded"], "WaitersEnded", _BUG_BASE),
+    # a waiter that has nothing under way yet (queued data with nothing in flight, an unanswered prompt) is passed over
+    ("idle_not_released", QUIESCE_INVS, "WaitersEnded", _BUG_BASE),
 ]
 
 
@@ -377,7 +380,7 @@ def plan_and_run(ctx, rep, procs, cfgs, workers=1):
         for kind in R.KINDS:
             if kind not in cfgs[ci]["strata"]:
                 continue
-            for k in pick_ks(n, ctx.quick, ctx.rng, cfgs[ci]["strata"][kind]):
+            for k in pick_ks(n, ctx.quick, ctx.rng, 0 if R.PROCS[p].window else cfgs[ci]["strata"][kind]):
                 jobs.append((p, kind, k, seed, md, n, flip))
     results = execute(jobs, workers)
     _tick(rep, "scenarios_s", time.time() - t0)
@@ -389,7 +392,8 @@ def run(ctx, rep):
 
     rep.rule = ("(M) Teardown.tla exhaustively within the constants; (B) every procedure of the catalogue (completing and failing ones) x cut kind in "
                 "{local disconnect, remote disconnect, transport loss by direct call, transport loss through a StreamPacketSource} x boundary k "
-                "(thorough: every k in 0..N; quick: 0, 1, N-1, N and one seeded k per stratum) x delay configuration x link 1 initiated by A / by B "
+                "(thorough: every k in 0..N; quick: 0, 1, N-1, N and one seeded k per stratum - none for a procedure that waits in one state whatever k is: "
+                "delegate prompts, drain of a starved queue) x delay configuration x link 1 initiated by A / by B "
                 "(thorough: none / 2 ms / 50 ms, B-initiated 2 ms; quick: 2 ms with 8 strata (source loss 2), none with 3 (no source loss), B-initiated 2 ms with 1 (disconnections and source loss)); "
                 "after a disconnection cut the link is re-established and the procedure run again; one trace per scenario validated by "
                 "TeardownTrace.tla; distinct = distinct (procedure, cut, k, delays, initiator)")
@@ -598,13 +602,17 @@ def selftest(ctx, rep):
 
     shims = {
         "shim:failed-session-detaches": (shim_failed_session_detaches, ("pair_rejected", "remote_disconnect", 50), "registry:smp_sessions:"),
-        "shim:failed-session-captures-next-pairing": (shim_failed_session_detaches, ("pair_rejected", "local_disconnect", 50), "stall:pair_rejected.again:"),
+        "shim:failed-session-captures-next-pairing": (shim_failed_session_detaches, ("pair_rejected", "local_disconnect", 50),
+                                                      # (captured the next pairing until a Pairing Request after a finished pairing was made to start a new session)
+                                                      ("stall:pair_rejected.again:", "registry:smp_sessions:local_disconnect:")),
         "shim:source-keeps-loss-to-itself": (shim_source_keeps_loss_to_itself, ("gatt_read", "source_loss", 2), ("tables:host:stale:source_loss", "hang:gatt_read:source_loss")),
         "shim:gatt-cleanup-as-peripheral-only": (shim_gatt_cleanup_as_peripheral_only, ("hci_command", "remote_disconnect", 1), "registry:gatt_subscribers:remote_disconnect:peer-side:central"),
         "shim:device-forgets-gatt-server": (shim_no_gatt_cleanup, ("gatt_indicate", "remote_disconnect", 3), "registry:gatt_subscribers:"),
         "shim:host-keeps-connection": (shim_host_keeps_connection, ("gatt_write", "remote_disconnect", 2), "tables:host:stale:"),
         "shim:queue-not-flushed": (shim_no_queue_flush, ("data_queue_drain", "remote_disconnect", 8), ("registry:data_queue:", "hang:data_queue_drain:")),
         "shim:smp-session-kept": (shim_smp_session_kept, ("pair_legacy", "local_disconnect", 9), "registry:smp_sessions:"),
+        # a drain waiter on a connection with data queued in the host and nothing in flight (the bystander holds the buffers)
+        "shim:starved-queue-not-flushed": (shim_no_queue_flush, ("data_queue_drain_starved", "remote_disconnect", 1), "hang:data_queue_drain_starved:"),
     }
     shim_runs = []
     for name, (patch, (proc, kind, k), want) in shims.items():
@@ -619,10 +627,13 @@ def selftest(ctx, rep):
     try:
         j = ("pair_legacy", "remote_disconnect", 9, ctx.seed + 1, 0.002, 0)
         shim_runs.append(summarize(R.run_scenario(*j[:5]), j))
+        # ... and the task the stack itself started for the connection (the passkey prompt of the keyboard side)
+        j = ("pair_passkey_prompt_sc", "remote_disconnect", 1, ctx.seed + 1, 0.002, 0)
+        shim_runs.append(summarize(R.run_scenario(*j[:5]), j))
     finally:
         bdevice.Connection.cancel_on_disconnection = orig
-    wants = [w for (_, _, w) in shims.values()] + ["hang:pair_legacy:"]
-    for name, want, sigs in zip(list(shims) + ["shim:waiter-not-cancelled"], wants, _sigs_of(ctx, shim_runs)):
+    wants = [w for (_, _, w) in shims.values()] + ["hang:pair_legacy:", "hang:passkey_prompt:"]
+    for name, want, sigs in zip(list(shims) + ["shim:waiter-not-cancelled", "shim:prompt-not-cancelled"], wants, _sigs_of(ctx, shim_runs)):
         results[name] = any(x.startswith(want) for x in sigs)
 
     print("selftest:", results)
